@@ -3,6 +3,7 @@ package rules
 import (
 	"go/token"
 	"go/types"
+	"strings"
 
 	"golang.org/x/tools/go/ssa"
 
@@ -125,4 +126,80 @@ func sameKeyValue(a, b ssa.Value) bool {
 		}
 	}
 	return false
+}
+
+// checkOutcomeReturned (R6.11): a handler method of the batching backend hands the pool's outcome to its caller: the
+// error it returns is the error result of the pool's request function it called (and, for get-and-touch, the response
+// is that call's response). A method that drops the error tells the orchestrator "stored / touched / deleted" for a
+// command the backend refused - the outcome differs from the same command over a direct connection.
+func checkOutcomeReturned(c *core.Ctx, rule string) {
+	impl, ok := handlerImpl(c, relBatched)
+	if !ok {
+		c.Undecided(rule, "batched.Handler", "-", "handler not found")
+		return
+	}
+	pv := &ssax.Prov{}
+	n := 0
+	for _, m := range []string{"Set", "Add", "Replace", "Append", "Prepend", "Delete", "Touch", "GAT"} {
+		fn := c.P.Method(impl, m)
+		if fn == nil || len(fn.Blocks) == 0 {
+			continue
+		}
+		// the pool call: a same-package callee whose last result is an error
+		var pool *ssa.Call
+		ssax.Instrs(fn, func(ins ssa.Instruction) {
+			if call, ok := ins.(*ssa.Call); ok {
+				if cal := call.Call.StaticCallee(); cal != nil && cal.Pkg == fn.Pkg && errResult(call) != nil {
+					pool = call
+				}
+			}
+		})
+		key := "(batched.Handler)." + m + "#outcome-returned"
+		if pool == nil {
+			c.Undecided(rule, key, c.P.Pos(fn.Pos()), "the method calls no request function of the pool")
+			continue
+		}
+		n++
+		e := errResult(pool)
+		var bad []string
+		for _, r := range ssax.Returns(fn) {
+			last := r.Results[len(r.Results)-1]
+			for _, d := range ssax.Defs(last) {
+				if d != e {
+					bad = append(bad, "the error returned at "+c.P.Pos(r.Pos())+" is "+d.String()+", not the pool's outcome")
+				}
+			}
+			if len(r.Results) == 2 {
+				fromPool := false
+				seen := map[ssa.Value]bool{}
+				var walk func(v ssa.Value, d int)
+				walk = func(v ssa.Value, d int) {
+					if v == nil || seen[v] || d > 10 {
+						return
+					}
+					seen[v] = true
+					if v == ssa.Value(pool) {
+						fromPool = true
+						return
+					}
+					if ins, ok := v.(ssa.Instruction); ok {
+						for _, op := range ins.Operands(nil) {
+							if op != nil && *op != nil {
+								walk(*op, d+1)
+							}
+						}
+					}
+				}
+				walk(r.Results[0], 0)
+				_ = pv
+				if !fromPool {
+					bad = append(bad, "the response returned at "+c.P.Pos(r.Pos())+" does not come from the pool's answer")
+				}
+			}
+		}
+		c.Check(len(bad) == 0, rule, key, c.P.Pos(pool.Pos()), "returns the outcome of "+pool.Call.StaticCallee().Name(), strings.Join(uniq(bad), "; ")+": a refused command is reported to the orchestrator as done")
+	}
+	if n == 0 {
+		c.Undecided(rule, "batched.Handler#outcome-returned", "-", "no single-reply method found")
+	}
 }
